@@ -8,9 +8,29 @@ cd /verif/harness || exit 2
 if ! cargo build --release >/tmp/.pvh-build.$$ 2>&1; then
   grep -E "^(error|warning: unused)" -A6 /tmp/.pvh-build.$$ | head -60 >&2
   rm -f /tmp/.pvh-build.$$
-  echo "INCONCLUSIVE property=$ID harness or /repo does not build" 
+  echo "INCONCLUSIVE property=$ID harness or /repo does not build"
   exit 2
 fi
 rm -f /tmp/.pvh-build.$$
 cd /verif || exit 2
-exec /verif/harness/target/release/vcheck "$ID" --tier "$TIER"
+FUZZ_CODE=0
+if [ "$TIER" = "thorough" ] && [ -z "$VERIF_NO_FUZZ" ]; then
+  # coverage-guided complement (libFuzzer): bytes -> same case language -> same oracle
+  case "$ID" in
+    C01|C02|C04|C15) TARGET=history; RUNS=${VERIF_FUZZ_RUNS:-120000} ;;
+    C03) TARGET=restart; RUNS=${VERIF_FUZZ_RUNS:-120000} ;;
+    C09) TARGET=index; RUNS=${VERIF_FUZZ_RUNS:-150000} ;;
+    C10) TARGET=filters; RUNS=${VERIF_FUZZ_RUNS:-400000} ;;
+    C05|C16) TARGET=damage; RUNS=${VERIF_FUZZ_RUNS:-120000} ;;
+    *) TARGET="" ;;
+  esac
+  if [ -n "$TARGET" ]; then
+    VERIF_FUZZ_PROP="$ID" /verif/tools/fuzz.sh "$TARGET" "$RUNS"
+    FUZZ_CODE=$?
+    export VERIF_FUZZ_JSON=/verif/fuzz/last-$TARGET.json
+  fi
+fi
+/verif/harness/target/release/vcheck "$ID" --tier "$TIER"
+CODE=$?
+if [ "$CODE" -eq 0 ] && [ "$FUZZ_CODE" -ne 0 ]; then CODE=$FUZZ_CODE; fi
+exit $CODE
